@@ -3,6 +3,8 @@
 
 package hls
 
+import "io/ioutil"
+
 // Inspectors for the verification harness (build tag verif only): read-only snapshots of the
 // segment generator and the playlist.
 
@@ -39,14 +41,23 @@ func (sg *SegmentGenerator) VerifCurrent() (cur VerifSegment, ok bool, sequenceN
 	return cur, ok, sg.sequenceNo, sg.afCache != nil
 }
 
-// VerifCurrentBytes returns a copy of what has been written to the open memory segment
-// (nil for persistent segments or when none is open).
+// VerifCurrentBytes returns a copy of what has been written to the open segment (nil when
+// none is open). For a persistent segment the buffered writer is flushed first and the
+// file is read back.
 func (sg *SegmentGenerator) VerifCurrentBytes() []byte {
 	if sg.current == nil {
 		return nil
 	}
 	if mf, ok := sg.current.file.(*memorySegmentFile); ok && mf.file != nil {
 		return append([]byte(nil), mf.file.Bytes()...)
+	}
+	if pf, ok := sg.current.file.(*persistentSegmentFile); ok && pf.buff != nil {
+		pf.buff.Flush()
+		b, err := ioutil.ReadFile(pf.path)
+		if err != nil {
+			return nil
+		}
+		return b
 	}
 	return nil
 }
